@@ -41,29 +41,73 @@ Proof.
   sp; auto; try congruence; try (rewrite <- LK; exact P).
 Qed.
 
-Lemma astep_inv : forall op a h h1 a1 ok, ainv a h -> astep op a h = (h1, a1, ok) ->
+Lemma astep_inv : forall g op a h h1 a1 ok, ainv a h -> astep g op a h = (h1, a1, ok) ->
   ainv a1 h1 /\ am a1 = am a /\ leak_step a a1 /\ (ok = true -> aleak a1 = aleak a) /\
-  (fuse h = None -> ok = true /\ fuse h1 = None).
+  (fuse h = None -> ok = true /\ fuse h1 = None) /\
+  (g = true -> aleak a1 = aleak a) /\ (ok = false -> aobjs a1 = aobjs a).
 Proof.
-  intros op a h h1 a1 ok V H. destruct op; cbn [astep] in H.
-  - pose proof (arena_new_obj_spec _ _ _ _ _ _ V H) as [V1 [AM [BS [LK [OK FZ]]]]]. sp; auto.
+  intros g op a h h1 a1 ok V H. destruct op; cbn [astep] in H.
+  - pose proof (arena_new_obj_spec _ _ _ _ _ _ _ V H) as [V1 [AM [BS [LK [OK [FZ [GL NB]]]]]]]. sp; auto.
   - pose proof (arena_reset_spec _ _ _ _ _ V H) as [V1 [AM [BS [LK [-> [B0 [N F]]]]]]].
-    sp; auto. left; auto. intros Fz. split; auto. congruence.
+    sp; auto; try discriminate. left; auto. intros Fz. split; auto. congruence.
 Qed.
 
-Lemma arun_inv : forall ops a h a1 h1, ainv a h -> run _ _ astep ops a h = (a1, h1) ->
-  ainv a1 h1 /\ (fuse h = None -> aleak a1 = aleak a /\ fuse h1 = None).
+Lemma arun_inv : forall g ops a h a1 h1, ainv a h -> run _ _ (astep g) ops a h = (a1, h1) ->
+  ainv a1 h1 /\ (fuse h = None -> aleak a1 = aleak a /\ fuse h1 = None) /\ (g = true -> aleak a1 = aleak a).
 Proof.
   induction ops as [|op r IH]; intros a h a1 h1 V H; cbn in H.
   - inversion H; subst; auto.
-  - destruct (astep op a h) as [[h2 a2] ok] eqn:E.
-    pose proof (astep_inv _ _ _ _ _ _ V E) as [V2 [AM [LS [OK FZ]]]].
-    destruct (IH _ _ _ _ V2 H) as [V3 FZ3]. split; auto.
-    intros Fz. destruct (FZ Fz) as [-> F2]. destruct (FZ3 F2) as [L3 F3]. split; auto.
-    rewrite L3. apply OK. reflexivity.
+  - destruct (astep g op a h) as [[h2 a2] ok] eqn:E.
+    pose proof (astep_inv _ _ _ _ _ _ _ V E) as [V2 [AM [LS [OK [FZ [GL _]]]]]].
+    destruct (IH _ _ _ _ V2 H) as [V3 [FZ3 GL3]]. split; auto. split.
+    + intros Fz. destruct (FZ Fz) as [-> F2]. destruct (FZ3 F2) as [L3 F3]. split; auto.
+      rewrite L3. apply OK. reflexivity.
+    + intros G. rewrite (GL3 G). apply GL. exact G.
 Qed.
 
 Lemma ainv0 : forall m bs f, ainv (arena0 m bs) (heap0 f).
 Proof.
   intros m bs f. unfold ainv, awf, lwf, linv, heap_ok. cbn. repeat split; try constructor; try (intros p []).
+Qed.
+
+(* K-new-1 repaired ([g] = true): every history, a refusal anywhere, then the destructor: nothing is outstanding,
+   no foreign / double free; a refused step leaves the objects of the arena as they were *)
+Lemma arena_safe_guarded : forall (ops : list aop) (f : option nat) (bs : nat) a h,
+  run _ _ (astep true) ops (arena0 0 bs) (heap0 f) = (a, h) ->
+  bad h = false /\
+  (forall op h1 a1, astep true op a h = (h1, a1, false) -> aobjs a1 = aobjs a /\ bad h1 = false) /\
+  (forall h1 a1 ok, arena_dtor a h = (h1, a1, ok) -> ok = true /\ live h1 = [] /\ bad h1 = false).
+Proof.
+  intros ops f bs a h R.
+  destruct (arun_inv _ _ _ _ _ _ (ainv0 0 bs f) R) as [V [_ GL]].
+  split; [apply V|]. split.
+  - intros op h1 a1 S. destruct (astep_inv _ _ _ _ _ _ _ V S) as [V1 [_ [_ [_ [_ [_ NB]]]]]].
+    split; [apply NB; reflexivity | apply V1].
+  - intros h1 a1 ok D. destruct (arena_dtor_spec _ _ _ _ _ V D) as [OK [P [B _]]].
+    rewrite (GL eq_refl) in P. cbn in P. split; auto. split; auto.
+    apply Permutation_nil. apply Permutation_sym. exact P.
+Qed.
+
+(* the statement for one shape of allocateBlock(): [g] = true the full guarantee, [g] = false what holds of the code as
+   found (what is outstanding after the destructor is exactly what refused steps lost: two blocks per refused step at most) *)
+Definition arena_safe_at (g : bool) : Prop :=
+  forall (ops : list aop) (f : option nat) (bs : nat) a h,
+  run _ _ (astep g) ops (arena0 0 bs) (heap0 f) = (a, h) ->
+  bad h = false /\
+  (forall op h1 a1 ok, astep g op a h = (h1, a1, ok) ->
+     bad h1 = false /\ (ok = false -> aobjs a1 = aobjs a) /\
+     (if g then aleak a1 = aleak a else leak_step a a1 /\ (ok = true -> aleak a1 = aleak a))) /\
+  (forall h1 a1 ok, arena_dtor a h = (h1, a1, ok) ->
+     ok = true /\ bad h1 = false /\ (if g then live h1 = [] else Permutation (live h1) (aleak a))).
+
+Lemma arena_safe_any : forall g, arena_safe_at g.
+Proof.
+  intros g ops f bs a h R.
+  destruct (arun_inv _ _ _ _ _ _ (ainv0 0 bs f) R) as [V [_ GL]].
+  split; [apply V|]. split.
+  - intros op h1 a1 ok S. destruct (astep_inv _ _ _ _ _ _ _ V S) as [V1 [_ [LS [OK [_ [G1 NB]]]]]].
+    split; [apply V1|]. split; [exact NB|]. destruct g; auto.
+  - intros h1 a1 ok D. destruct (arena_dtor_spec _ _ _ _ _ V D) as [OK [P [B _]]].
+    split; auto. split; auto. destruct g; auto.
+    rewrite (GL eq_refl) in P. cbn in P. apply Permutation_nil. apply Permutation_sym. exact P.
 Qed.
